@@ -475,6 +475,9 @@ def optional_names(fi: FuncInfo, extra: Optional[Dict[str, str]] = None) -> Dict
                 out.setdefault(nm, "local of %s bound to None on some paths" % cur.qualname)
             if any(isinstance(v, ast.Call) and isinstance(v.func, ast.Attribute) and v.func.attr == "exception" and not v.args for v in vals):
                 out.setdefault(nm, "result of .exception() (None or an exception object, which may be falsy)")
+        for n_ in own_walk(cur.node):
+            if isinstance(n_, ast.NamedExpr) and isinstance(n_.target, ast.Name) and isinstance(n_.value, ast.Call) and isinstance(n_.value.func, ast.Attribute) and n_.value.func.attr == "exception" and not n_.value.args:
+                out.setdefault(n_.target.id, "result of .exception() (None or an exception object, which may be falsy)")
         # `except E as e: x = e` / else: x = None is covered by the None-store rule above
         cur = cur.parent
     for k, v in (extra or {}).items():
@@ -498,6 +501,13 @@ def check_none_tests(ck, rule: str, fi: FuncInfo, extra: Optional[Dict[str, str]
         elif isinstance(a, ast.Compare) and len(a.ops) == 1 and isinstance(a.ops[0], (ast.Is, ast.IsNot)) and isinstance(a.left, ast.Name) and a.left.id in names and q.is_const(a.comparators[0], None):
             n += 1
             ck.ob(rule, fi, a, True, "`%s` is told apart from None by identity" % a.left.id)
+        elif isinstance(a, ast.Compare) and len(a.ops) == 1 and isinstance(a.ops[0], (ast.Is, ast.IsNot)) and isinstance(a.left, ast.NamedExpr) and isinstance(a.left.target, ast.Name) and a.left.target.id in names and q.is_const(a.comparators[0], None):
+            n += 1
+            ck.ob(rule, fi, a, True, "`%s` is told apart from None by identity" % a.left.target.id)
+        elif isinstance(a, ast.NamedExpr) and isinstance(a.target, ast.Name) and a.target.id in names:
+            n += 1
+            ck.ob(rule, fi, a, False, "`%s` (%s) is tested by truthiness; a legal falsy value would be treated like None — test `is None` / `is not None`" % (a.target.id, names[a.target.id]),
+                  construct="truthiness of %s" % a.target.id)
     return n
 
 
@@ -622,3 +632,42 @@ def with_nullness(init, transfer, edge_transfer=None):
         return (val, known)
 
     return (init, frozenset()), tr, ed
+
+
+def allowed_closure(repo: Repo, relpath: str, base_allowed: Iterable[str]) -> Set[str]:
+    """Who-may-write / who-may-call sets closed over helpers: a *private* function of the module (method or module-level
+    function, not nested) is allowed when it has at least one caller in the module and every caller is allowed (fixpoint).
+    ``repo`` must be the un-normalised model (the normaliser inlines such helpers, so their call sites vanish there).
+    Returns the qualnames (top-level functions/methods) that are allowed."""
+    m = repo.module(relpath)
+    allowed = set(base_allowed)
+    tops = {qn: fi for qn, fi in m.funcs.items() if ".<locals>." not in qn and isinstance(fi.node, q.FuncNode)}
+
+    def top_of(fi):
+        while fi.parent is not None:
+            fi = fi.parent
+        return fi.qualname
+
+    callers: Dict[str, Set[str]] = {}
+    for qn, fi in m.funcs.items():
+        if not isinstance(fi.node, q.FuncNode):
+            continue
+        for n in ast.walk(fi.node):
+            if isinstance(n, ast.Attribute) and isinstance(n.ctx, ast.Load):
+                callers.setdefault(n.attr, set()).add(top_of(fi))
+            elif isinstance(n, ast.Name) and isinstance(n.ctx, ast.Load):
+                callers.setdefault(n.id, set()).add(top_of(fi))
+    changed = True
+    while changed:
+        changed = False
+        for qn, fi in tops.items():
+            if qn in allowed:
+                continue
+            nm = fi.name
+            if not (nm.startswith("_") and not (nm.startswith("__") and nm.endswith("__"))):
+                continue
+            cs = {c for c in callers.get(nm, set()) if c != qn}
+            if cs and cs <= allowed:
+                allowed.add(qn)
+                changed = True
+    return allowed
